@@ -27,7 +27,7 @@ type c15Case struct {
 func init() {
 	engine.Register(&engine.Check{
 		ID: "C15", Level: "exploration",
-		Rule:        "2D: every point x every segment and every pair of segments (degenerate ones included) on the 4x4 integer grid, also scaled by 2^20 and translated; point-to-linestring for every polyline of <=3 vertices x every point; perpendicular distance for lines through two distinct points. 3D: every pair of segments with endpoints in {0,1}x{0,1,2}^2 (quick) / {0,1,2}^3 (thorough) - zero-length first/second/both, parallel, collinear, crossing, touching, skew, optimum outside the unit square in both parameters - plus scaled copies; every point x segment; Z = NaN for xyz.Distance. Oracle: exact rational squared distance (3D by exact minimisation over the clamped parameter square); |result - sqrt(exact)| <= 1e-9 x coordinate scale; never NaN; symmetric in argument order and direction. distinct_nontrivial = distinct argument tuples with non-zero exact distance or touching sets Also: point-to-linestring on 'star' zig-zags with every vertex count 2..70 and 96..1003 in strides 2..5, and long, nearly parallel 3D segments on the grid up to 2^20 (crossing, touching or skew by a few lattice steps).",
+		Rule:        "2D: every point x every segment and every pair of segments (degenerate ones included) on the 4x4 integer grid, also scaled by 2^20 and translated; point-to-linestring for every polyline of <=3 vertices x every point; perpendicular distance for lines through two distinct points. 3D: every pair of segments with endpoints in {0,1}x{0,1,2}^2 (quick) / {0,1,2}^3 (thorough) - zero-length first/second/both, parallel, collinear, crossing, touching, skew, optimum outside the unit square in both parameters - plus scaled copies; every point x segment; Z = NaN for xyz.Distance. Oracle: exact rational squared distance (3D by exact minimisation over the clamped parameter square); |result - sqrt(exact)| <= 1e-9 x coordinate scale; never NaN; symmetric in argument order and direction. distinct_nontrivial = distinct argument tuples with non-zero exact distance or touching sets Also: point-to-linestring on 'star' zig-zags with every vertex count 2..70 and 96..1003 in strides 2..5, and long, nearly parallel 3D segments on the grid up to 2^20 (crossing, touching or skew by a few lattice steps); 2D lattice points on and one step beside long segments with rough integer coordinates up to 2^20 (point-segment, point-linestring, collinear segment pairs).",
 		Run:         c15Run,
 		Replay:      func(c *engine.Ctx, kind string, raw json.RawMessage) { c15Exec(c, decodeCase[c15Case](raw)) },
 		Assumptions: []string{"integer-grid ordinates up to 2^20 (exact squared distances); perpendicular distance only for distinct line points"},
@@ -319,6 +319,47 @@ func c15Run(c *engine.Ctx) {
 		c.Count("long_3d_cases", 1)
 		c15Exec(c, c15Case{Mode: "seg-seg3", V: f3(t.a, t.b, t.p, t.q)})
 		c15Exec(c, c15Case{Mode: "pt-seg3", V: f3(t.p, t.a, t.b)})
+	})
+	// 2D: lattice points on and next to long segments with rough integer coordinates up to 2^20
+	// (origin o, primitive direction d, end o+n*d; query o+k*d shifted by at most one lattice
+	// step): point-segment, point-linestring (a far second segment follows) and collinear
+	// overlapping or touching segment pairs
+	origins2 := [][2]float64{{0, 0}, {123457, 654321}, {1<<20 - 1, 1<<19 + 3}, {-999983, 7}, {16385, -16411}}
+	dirs2 := [][2]float64{{1, 0}, {0, 1}, {1, 1}, {3, 1}, {-7, 5}, {2, -9}, {1021, 3}, {5, 1013}}
+	shifts2 := [][2]float64{{0, 0}, {1, 0}, {0, 1}, {-1, 1}, {0, -1}}
+	type l2 struct {
+		o, d [2]float64
+		n    float64
+	}
+	var long2 []l2
+	for _, o := range origins2 {
+		for _, d := range dirs2 {
+			for _, n := range []float64{2, 10, 1000, 100000} {
+				if math.Abs(o[0]+n*d[0]) <= 1<<20 && math.Abs(o[1]+n*d[1]) <= 1<<20 {
+					long2 = append(long2, l2{o, d, n})
+				}
+			}
+		}
+	}
+	c.Note("long_2d_configurations", len(long2))
+	c.Parallel(len(long2), func(i int) {
+		t := long2[i]
+		at := func(k float64) [2]float64 { return [2]float64{t.o[0] + k*t.d[0], t.o[1] + k*t.d[1]} }
+		a, b := at(0), at(t.n)
+		for _, k := range []float64{0, 1, math.Floor(t.n / 3), math.Floor(t.n / 2), t.n - 1, t.n, t.n + 1, -1} {
+			for _, sft := range shifts2 {
+				q := at(k)
+				q[0] += sft[0]
+				q[1] += sft[1]
+				c.Count("long_2d_cases", 1)
+				c15Exec(c, c15Case{Mode: "pt-seg2", V: []ref.F{ref.F(q[0]), ref.F(q[1]), ref.F(a[0]), ref.F(a[1]), ref.F(b[0]), ref.F(b[1])}})
+				far := [2]float64{b[0] - 1000*t.d[1], b[1] + 1000*t.d[0]}
+				c15Exec(c, c15Case{Mode: "pt-line2", V: []ref.F{ref.F(q[0]), ref.F(q[1]), ref.F(a[0]), ref.F(a[1]), ref.F(b[0]), ref.F(b[1]), ref.F(far[0]), ref.F(far[1])}})
+				// a second segment from q along the same direction (collinear when the shift is zero)
+				e := [2]float64{q[0] + 2*t.d[0], q[1] + 2*t.d[1]}
+				c15Exec(c, c15Case{Mode: "seg-seg2", V: []ref.F{ref.F(a[0]), ref.F(a[1]), ref.F(b[0]), ref.F(b[1]), ref.F(q[0]), ref.F(q[1]), ref.F(e[0]), ref.F(e[1])}})
+			}
+		}
 	})
 	if c.Get("touching") == 0 || c.Get("apart") == 0 {
 		c.Warn("vacuous: touching or apart class empty")
